@@ -1220,8 +1220,10 @@ class Color(object):
     @staticmethod
     def parse(color_string):
         """Parse SVG color, will return a set value."""
-        if color_string is None or color_string == SVG_VALUE_NONE:
-            return None
+        if color_string is None or (
+            isinstance(color_string, str) and color_string.lower() == SVG_VALUE_NONE
+        ):
+            return None  # The keyword is case-insensitive like the colour names.
         match = REGEX_COLOR_HEX.match(color_string)
         if match:
             return Color.parse_color_hex(color_string)
